@@ -388,6 +388,12 @@ void FnEmitter::run(raw_ostream& os) {
         continue;
       }
       if (step) {
+        pauseNextPc = -1;
+        if (auto* CBp = dyn_cast<CallBase>(&I))
+          if (CBp->isInlineAsm()) { // a pause: does a scheduling point follow in the same block?
+            for (const Instruction* J = I.getNextNode(); J; J = J->getNextNode())
+              if (visibility(*J) != INVISIBLE) { pauseNextPc = nextPc; break; }
+          }
         Vis v = visibility(I);
         const Value* addr = nullptr;
         if (auto* L = dyn_cast<LoadInst>(&I)) addr = L->getPointerOperand();
@@ -409,6 +415,7 @@ void FnEmitter::run(raw_ostream& os) {
                 pcs.push_back(pc);
                 body << "  vf_pc[" << tid << "] = " << pc << "; if (!vf_probe_mode) return;\n R" << pc << ": ;\n";
                 body << "  " << (phase == 0 ? "vf_cv_wait_block(" : "vf_cv_wait_relock(") << val(CBW->getArgOperand(0)) << ", " << val(CBW->getArgOperand(1)) << ");\n";
+                body << "  if (vf_dead) return;\n";
                 body << "  if (vf_probe_mode) { if (!vf_blocked[" << tid << "]) vf_enabled[" << tid << "] = 1; return; }\n";
               }
             }
@@ -513,8 +520,9 @@ void Translator::emitScheduler(raw_ostream& os, const Function& F) {
      << "  for (t = 0; t < " << nthreads << "; ++t) live += !vf_done[t];\n"
      << "  if (live) {\n    vf_probe_mode = 1; vf_stepping = 1;\n";
   for (int k = 0; k < nthreads; ++k)
-    os << "    if (n > " << k << " && !vf_done[" << k << "]) { vf_cur = " << k << "; vf_blocked[" << k << "] = 0; vf_pausecnt[" << k << "] = 0; vf_enabled[" << k << "] = 0; " << name
-       << "__t" << k << "(); nblocked += (vf_blocked[" << k << "] && !vf_enabled[" << k << "]); }\n";
+    os << "    if (n > " << k << " && !vf_done[" << k << "]) { vf_cur = " << k << "; vf_blocked[" << k << "] = 0; vf_pausecnt[" << k << "] = 0; vf_probe_retry[" << k << "] = 0; vf_enabled[" << k << "] = 0; " << name
+       << "__t" << k << "(); if (vf_probe_retry[" << k << "] && !vf_blocked[" << k << "] && !vf_enabled[" << k << "]) { vf_probe_retry[" << k << "] = 0; " << name << "__t" << k
+       << "(); } nblocked += (vf_blocked[" << k << "] && !vf_enabled[" << k << "]); }\n";
   os << "    VF_ASSERT(nblocked < live, \"deadlock: every unfinished thread waits on a condition no thread can change\");\n"
      << "    VF_BOUND_ASSERT(stopped, \"scheduler step bound too small for a complete execution\");\n"
      << "    VF_ASSUME(0);\n  }\n"
@@ -677,7 +685,24 @@ void Translator::emitModule(raw_ostream& os, const std::vector<std::string>& roo
   os << "/* generated by ir2c from " << M.getSourceFileName() << " -- do not edit */\n#include \"vf_rt.h\"\n\n";
   bo.flush(); gdo.flush(); gdc.flush(); po.flush();
   emitAggDefs(os);
-  os << "\n" << gdecls << "\n" << protos << "\n" << gdefs << "\n" << bodies;
+  // externals whose address is taken but which are never called directly (e.g. the destructor handed to __cxa_throw,
+  // std::type_info objects' vtables): weak empty definitions so that the unit links; a direct call still needs a model
+  std::string weak;
+  raw_string_ostream wo(weak);
+  for (auto* F : reachFOrder) {
+    if (F->isIntrinsic()) continue;
+    bool decl = F->isDeclaration() || F->hasAvailableExternallyLinkage();
+    StringRef n = F->getName();
+    if (!decl || n.startswith("vf_") || externsUsed.count(n.str())) continue;
+    if (n == "_setjmp" || n == "setjmp" || n == "__sigsetjmp" || n == "longjmp" || n == "_longjmp" || n == "siglongjmp" || n == "__longjmp_chk") continue;
+    if (F->isVarArg()) continue;
+    Type* RT = F->getReturnType();
+    wo << "#ifndef VF_HAVE_" << globalName(F) << "\n__attribute__((weak)) " << protoOf(F, globalName(F)) << " { ";
+    if (!RT->isVoidTy()) wo << cty(RT) << " vf_z; memset(&vf_z, 0, sizeof vf_z); return vf_z; ";
+    wo << "}\n#endif\n";
+  }
+  wo.flush();
+  os << "\n" << gdecls << "\n" << protos << "\n" << weak << "\n" << gdefs << "\n" << bodies;
   os << "void vf_global_ctors(void) {\n";
   for (auto& c : ctors) os << "  " << globalName(c.second) << "();\n";
   os << "}\n";
